@@ -505,7 +505,7 @@ def coq_make(targets=None, keep_going=False):
         fcntl.flock(lf, fcntl.LOCK_EX)
         try:
             coq_project()
-            r = sh("timeout 3000 make -j16 %s %s" % ("-k" if keep_going else "", tg), cwd=COQ, timeout=3100)
+            r = sh("timeout 1500 make -j16 %s %s" % ("-k" if keep_going else "", tg), cwd=COQ, timeout=1600)
             if r[0] != 0 and "No rule to make target" in (r[1] + r[2]):
                 # a .v file disappeared since the dependency file was written: regenerate and retry once
                 try:
@@ -513,7 +513,7 @@ def coq_make(targets=None, keep_going=False):
                 except OSError:
                     pass
                 coq_project()
-                r = sh("timeout 3000 make -j16 %s %s" % ("-k" if keep_going else "", tg), cwd=COQ, timeout=3100)
+                r = sh("timeout 1500 make -j16 %s %s" % ("-k" if keep_going else "", tg), cwd=COQ, timeout=1600)
             return r
         finally:
             fcntl.flock(lf, fcntl.LOCK_UN)
